@@ -2,7 +2,8 @@
 from __future__ import annotations
 
 from vf import refmodel as R
-from vf.defgen import PTR_BYTES
+from vf.defgen import PTR_BYTES as _PB, PTR_BYTES_EXOTIC
+PTR_BYTES = dict(_PB, **PTR_BYTES_EXOTIC)
 
 PREAMBLE = "#define K1 1\n"
 CONSTS = {"K1": 1}
